@@ -19,15 +19,18 @@ pub enum Shape {
     ManySuffixes,
     Big,
     Huge,
+    /// small on the wire, large once decompressed: many records naming one long name by pointer
+    Inflating,
 }
 
-pub const SHAPES: [Shape; 6] = [
+pub const SHAPES: [Shape; 7] = [
     Shape::Tiny,
     Shape::Typical,
     Shape::Many,
     Shape::ManySuffixes,
     Shape::Big,
     Shape::Huge,
+    Shape::Inflating,
 ];
 
 impl Shape {
@@ -39,6 +42,7 @@ impl Shape {
             Shape::ManySuffixes => "many-suffixes",
             Shape::Big => "gt8192",
             Shape::Huge => "near64k",
+            Shape::Inflating => "inflating",
         }
     }
 }
@@ -335,7 +339,84 @@ fn name_pool(rng: &mut Rng, shape: Shape) -> (Vec<Name>, bool) {
     (pool, false)
 }
 
+/// Many records whose names are the (long) question name: a few KB on the wire, anything from a
+/// few KB to beyond 64 KiB once decompressed (the sizes are aimed at the 8192 and 65535 limits).
+fn gen_inflating(rng: &mut Rng, cfg: &PacketCfg) -> Msg {
+    let qlen = *rng.pick(&[255usize, 255, 200, 188, 120, 64]);
+    let qname = gen_name_of_len(rng, qlen);
+    let mut m = Msg {
+        id: rng.next_u64() as u16,
+        flags: 0x8180 | (rng.next_u64() as u16 & 0x0030),
+        q: Some(Question {
+            name: qname.clone(),
+            qtype: 1,
+            qclass: 1,
+        }),
+        ..Default::default()
+    };
+    // decompressed size ~ 12 + qlen+4 + n*(qlen+10+rd)
+    let target = match rng.below(6) {
+        0 => rng.range(7900, 8192),
+        1 => rng.range(8193, 8500),
+        2 => rng.range(8000, 12000),
+        3 => rng.range(64000, 65535),
+        4 => rng.range(65536, 80000),
+        _ => rng.range(2000, 60000),
+    };
+    let mut total = 12 + qlen + 4;
+    let mut tag = 5000u32;
+    while total < target {
+        let rtype = *rng.pick(&[T_A, T_A, T_AAAA, T_NS, T_CNAME, T_MX, T_TXT]);
+        let mut ng = |_r: &mut Rng| qname.clone();
+        let mut r = Rec {
+            name: qname.clone(),
+            rtype,
+            class: 1,
+            ttl: {
+                tag += 1;
+                tag
+            },
+            rdata: gen_rdata_for(rng, rtype, &mut ng),
+        };
+        if let RData::Opaque(v) = &mut r.rdata {
+            v.truncate(8);
+        }
+        let w = r.wire_len();
+        if total + w > target && total + 11 <= target {
+            // finish exactly on the target with an opaque record under the root name
+            let pad = target - total - 11;
+            r = Rec {
+                name: Name::root(),
+                rtype: T_TXT,
+                class: 1,
+                ttl: tag,
+                rdata: RData::Opaque(vec![b'p'; pad.min(60000)]),
+            };
+        }
+        total += r.wire_len();
+        let s = rng.below(3);
+        m.sec[s].push(r);
+        if m.sec[0].len() + m.sec[1].len() + m.sec[2].len() > 400 {
+            break;
+        }
+    }
+    if cfg.opt != OptPlace::Absent {
+        let opt = gen_opt(rng);
+        let ar = &mut m.sec[2];
+        let pos = match cfg.opt {
+            OptPlace::First => 0,
+            OptPlace::Last => ar.len(),
+            _ => rng.below(ar.len() + 1),
+        };
+        ar.insert(pos, opt);
+    }
+    m
+}
+
 pub fn gen_msg(rng: &mut Rng, cfg: &PacketCfg) -> Msg {
+    if cfg.shape == Shape::Inflating {
+        return gen_inflating(rng, cfg);
+    }
     let (pool, chain) = name_pool(rng, cfg.shape);
     let mut next_in_chain = 0usize;
     let mut name_gen = |r: &mut Rng| -> Name {
@@ -360,7 +441,8 @@ pub fn gen_msg(rng: &mut Rng, cfg: &PacketCfg) -> Msg {
         flags,
         q: Some(Question {
             name: name_gen(rng),
-            qtype: *rng.pick(&[1u16, 28, 2, 15, 6, 255, 12, 16]),
+            // including codes that mean something special elsewhere (OPT, DNAME, CNAME, 0, 65535)
+            qtype: *rng.pick(&[1u16, 1, 28, 2, 15, 6, 255, 12, 16, 41, 41, 39, 5, 0, 65535, 250]),
             qclass: 1,
         }),
         ..Default::default()
@@ -371,7 +453,7 @@ pub fn gen_msg(rng: &mut Rng, cfg: &PacketCfg) -> Msg {
             Shape::Tiny => rng.below(2),
             Shape::Typical => rng.below(maxs.min(5) + 1),
             Shape::Many | Shape::ManySuffixes => rng.range(0, maxs),
-            Shape::Big | Shape::Huge => rng.below(maxs.min(4) + 1),
+            Shape::Big | Shape::Huge | Shape::Inflating => rng.below(maxs.min(4) + 1),
         }
     };
     let mut tag = 1000u32;
@@ -446,11 +528,15 @@ pub fn gen_msg(rng: &mut Rng, cfg: &PacketCfg) -> Msg {
     m
 }
 
-pub fn gen_packet_cfg(rng: &mut Rng, shape_weights: &[u32; 6]) -> PacketCfg {
+pub fn gen_packet_cfg(rng: &mut Rng, shape_weights: &[u32; 7]) -> PacketCfg {
     let shape = SHAPES[rng.weighted(shape_weights)];
     PacketCfg {
         shape,
-        density: *rng.pick(&[0usize, 0, 300, 700, 1000, 1000]),
+        density: if shape == Shape::Inflating {
+            1000
+        } else {
+            *rng.pick(&[0usize, 0, 300, 700, 1000, 1000])
+        },
         opt: *rng.pick(&[
             OptPlace::Absent,
             OptPlace::Absent,
